@@ -348,6 +348,14 @@ def boundary_strings():
     for f in _FOREIGN:
         for t in _BOUNDARY:
             yield t.replace("%s", f)
+    # names are "taken maximally", however long they are
+    for n in (15, 16, 17, 31, 32, 33, 63, 64, 65, 66, 127, 128, 129, 255,
+              256, 257, 1000, 5000):
+        for first in ("a", "_", "Z"):
+            name = (first + "b1_Q" * (n // 4 + 1))[:n]
+            for t in ("$%s", "${%s}", "$(%s)", "x $%s.y", "${%s}${%s}",
+                      "$%s-$%s", "$(%s)$%s"):
+                yield t.replace("%s", name)
 
 
 def run_shard(ctx):
@@ -360,6 +368,11 @@ def run_shard(ctx):
         if ctx.mine(bi):
             check_string(ctx, substitute, ZConfig, s, family="boundary")
             ctx.res.count("boundary_strings")
+    for n in (31, 32, 33, 63, 64, 65, 255, 256, 257, 5000):
+        if ctx.mine(n):
+            check_isname(ctx, isname, "a" * n)
+            check_isname(ctx, isname, "_" + "9" * (n - 1))
+            check_isname(ctx, isname, "a" * n + "-")
     for fi, f in enumerate(_FOREIGN):
         if ctx.mine(fi):
             for t in ("%s", "a%s", "%sa", "_%s", "a%s1", "a\n", "%s\n"):
